@@ -590,8 +590,31 @@ func triggerData(w *World, v Violation) string {
 				continue
 			}
 			for _, d := range c.Ref.DropLog {
-				if d.RID == v.RID && d.T < h.T && outstandingAcross(c, d.T) {
+				if d.RID == v.RID && d.T < h.T && (outstandingAcross(c, d.T) || eventWaitingAcross(w, c, h.T, d.T)) {
 					return "unsend-stale-snapshot"
+				}
+			}
+		}
+	}
+	// unsend through a stray event: the resource was carried to the client in the
+	// resource set of an event for a resource the client had already dropped
+	// (while a request was outstanding). The client does not take resources from
+	// an event it cannot apply; the gateway counts them as sent and later hands
+	// over nothing, or the snapshot of that moment.
+	if v.Class == "diverged" || v.Class == "tail_missing" || v.Class == "order_gap_or_duplicate" {
+		for _, ev := range c.Ref.Events {
+			if ev.Held || ev.T >= v.T && v.Class != "diverged" {
+				continue
+			}
+			dm := asMap(ev.Data)
+			if dm == nil || !outstandingAcross(c, ev.T) {
+				continue
+			}
+			for _, kind := range []string{"models", "collections"} {
+				if set := asMap(dm[kind]); set != nil {
+					if _, ok := set[v.RID]; ok {
+						return "unsend-stale-snapshot"
+					}
 				}
 			}
 		}
@@ -746,6 +769,37 @@ func reachableFromOutstanding(w *World, c *Client, target string, t int) bool {
 
 // outstandingAcross reports whether some request of the connection was sent
 // before log time t and not answered before t.
+// eventWaitingAcross: the frame at log time ft is an event frame whose service
+// event had reached the gateway before log time t (it was waiting for the
+// references it adds to load): the "load on the connection that still
+// references the resource" of the stale-snapshot finding is then an event, not
+// a request.
+func eventWaitingAcross(w *World, c *Client, ft, t int) bool {
+	log := w.Log()
+	if ft < 0 || ft >= len(log) || log[ft].Kind != "frame" {
+		return false
+	}
+	var f struct {
+		Event string `json:"event"`
+	}
+	if json.Unmarshal(log[ft].Payload, &f) != nil || f.Event == "" {
+		return false
+	}
+	i := strings.LastIndexByte(f.Event, '.')
+	if i < 0 {
+		return false
+	}
+	name, _ := splitRID(strings.Replace(f.Event[:i], "{cid}", c.CID, -1))
+	subj := "event." + name + "." + f.Event[i+1:]
+	at := -1
+	for _, e := range log[:ft] {
+		if e.Kind == "mq_ev" && e.Subject == subj {
+			at = e.T
+		}
+	}
+	return at >= 0 && at < t
+}
+
 func outstandingAcross(c *Client, t int) bool {
 	for _, id := range c.Ref.ReqOrder {
 		q := c.Ref.Reqs[id]
